@@ -317,7 +317,7 @@ def _shared_names(items):
 def run_family(run, label, queries, recsA, maxA, recsB='R_none', maxB=0, cli_every=7):
     d = tlcrun.new_scratch('c13')
     cfg = ec.engine_cfg(os.path.join(d, label + '.cfg'), queries, recsA, recsB, maxA, maxB, (False, True), (0,))
-    res = tlcrun.run_tlc('MC_Engine', cfg, timeout=3600, coverage=(run.tier != 'quick'))
+    res = tlcrun.run_tlc('MC_Engine', cfg, timeout=3600)
     run.add_tlc('MC_Engine:' + label, res)
     items = [(tid, case, (tid % cli_every == 0)) for tid, case in enumerate(res.cases, 1)]
     out = par.pmap(_run_frontends, items, chunk=40)
